@@ -21,6 +21,11 @@ def run(c):
         harness(c, 4000)
 
     c.assumptions += [
+        "stored rows carry their parameters (bcrypt cost; argon2 time, memory, lanes; salt): the key derivations are symbolic and collision-free in EVERY input (sameKey: same parameters, same salt, same password "
+        "modulo the scheme's password rule); HashVerify derives again with the parameters and salt read from the row and with nothing from the options or the environment of the verifying process "
+        "(hashVerify takes runtime.GOMAXPROCS as an argument and ignores it: C14_verify_ignores_environment); in differential runs accounts are created / re-hashed over the grid of accepted parameters, rows made by an "
+        "independent implementation of the documented format (x/crypto called directly with the parameters written into the string) are written into the table, and part of the histories run their argon2 "
+        "verifications under runtime.GOMAXPROCS(1|2) (set around the call, alone, restored afterwards)",
         "hash functions are symbolic: verifying p against a row computed from q succeeds iff p = q (argon2, salted sha256: collision freedom assumed) "
         "or iff the 72-byte cyclic expansions of p++[0] and q++[0] are equal (bcrypt: x/crypto's key schedule, stated in the model and exercised on the real library, "
         "including passwords of 71/72/73 bytes, longer ones and embedded NUL bytes)",
@@ -47,12 +52,18 @@ def run(c):
         "(not with the code under test), and also sends every credential pair through the other mechanism. User names include pairs of distinct accounts that case folding / compatibility mapping / locale rules "
         "would merge (straße-strasse, final sigma, dotless i, capital sharp s, ligatures, dz digraphs), names with '@' that are not e-mail addresses, postmaster; passwords include the previous password of the "
         "account and the current password of another account. "
+        "(1a) hash parameters: create with HashOpts over bcrypt cost 4..11 (plus below-min = default, over-max = refused), argon2 time 1..3 (now and then up to 16) x memory 0..1024 KiB (now and then 4/16 MiB) x lanes 1, 2, 3, 4, "
+        "the CPUs of this machine, one more, 255 (rarely no pass / no lane: the argon2 panic is an explicit outcome), sha256; operation h: a row made by an independent implementation of the documented row format is written "
+        "for the account (mostly a re-hash of the current password with other parameters or another scheme; salts of 8/16/32 bytes); ~27 % of the histories verify their argon2 rows with runtime.GOMAXPROCS lowered to 1 or 2; "
+        "the monitor also reads every row the code writes with its own reading of the format: the parameters written must be the ones asked for and the password just set must reproduce the key under them. "
         "(1b) overlapping logins inside the histories: 2-4 logins (PLAIN/LOGIN/direct; right, wrong, previous, another account's password; mostly one account) held inside their hash verification or right after "
         "reading their row so that they are in flight together, with set-password / delete / delete+create of the account in between, finished in any order or released together; each verdict must be right for some "
         "table state inside that login's interval. "
         "(2) SMTP command sequences of 1-14 commands (plausible sessions with commands dropped/duplicated/moved, and random ones) against real submission and smtp endpoints over TCP, reply codes compared with the model. "
         "(3) call skeletons of the anchored functions re-derived from the current sources and compared with the expectation the model was written from. distinct = distinct op lines",
-        explanation="theorems over all histories, names, passwords, schemes, normalisation functions and user-name maps (no hypothesis on them); over all interleavings of overlapping logins with management "
+        explanation="theorems over all histories, names, passwords, schemes, hash parameters, salts and CPU counts of the verifying process, normalisation functions and user-name maps (no hypothesis on them); "
+        "the table with full rows (scheme, parameters, salt, key) refines the table of (scheme, password) rows for histories of any length (C14_params_refine), verification succeeds iff password and parameters-as-stored "
+        "reproduce the stored key (C14_verify_iff_reproduces_stored_key, C14_verify_computed_row, C14_other_parameters_other_key); over all interleavings of overlapping logins with management "
         "(a login's verdict is the sequential verdict at the point where it read its row, independent of the other logins); default normalisation addresses the account management addresses; gate theorem over all command sequences; "
         "model tied to the code by differential runs of whole histories / sessions and by regenerated call skeletons",
         search=search,
